@@ -421,6 +421,28 @@ func confirmReplay(a OrchArgs, path string, race bool) (bool, string) {
 			return true, tail(string(out), 3000)
 		}
 	}
+	// C15 is about what earlier transforms of a process leave behind, and the runs a worker executed
+	// before the failing one are such transforms: state the harness does not know of (and so cannot
+	// put into a canonical condition between runs) makes a violation that shows only after them. The
+	// replay then executes those runs first - the very sequence the worker executed, in a fresh
+	// process - and the file says so. Nothing is reported unless the real code fails again.
+	if a.Prop == "C15" {
+		if rf, err := ReadReplay(path); err == nil && rf.History != nil && rf.Mode == "tape" {
+			rf.NeedsHistory = true
+			rf.Narrative = append(rf.Narrative, "NOT reproduced when this run is executed alone in a fresh process; reproduced after the runs the worker had executed before it (process_history): the replay executes them first")
+			if _, err := WriteReplay(rf); err == nil {
+				for i := 0; i < 2; i++ {
+					exit, _, o := runOne(a, race, instr, []string{"replay", path}, a.Budget+2*a.HangLimit)
+					out = []byte(o)
+					if exit == 1 {
+						return true, tail(string(out), 3000)
+					}
+				}
+				rf.NeedsHistory = false
+				WriteReplay(rf)
+			}
+		}
+	}
 	return false, tail(string(out), 3000)
 }
 
